@@ -112,6 +112,42 @@ void Child::finish() {
 }
 
 // ---------------------------------------------------------------------------
+// Hang watchdog inside the child.  A run that blocks (a mutex that is never
+// released) burns no CPU, so RLIMIT_CPU never fires; a plain wall-clock alarm
+// would have to be long enough for a heavily loaded machine.  Instead a 2 s
+// interval timer looks at the process CPU time: three consecutive intervals
+// without any CPU progress, outside the places where the child legitimately
+// waits for a grandchild, mean the run is blocked.  A generous wall-clock cap
+// remains as the last resort.
+// ---------------------------------------------------------------------------
+volatile int g_waiting_for_grandchild = 0;
+static volatile long long g_wd_last_cpu_ns = -1;
+static volatile int g_wd_idle = 0, g_wd_ticks = 0, g_wd_cap_ticks = 0;
+static void watchdog_tick(int) {
+  struct timespec ts;
+  clock_gettime(CLOCK_PROCESS_CPUTIME_ID, &ts);
+  long long now = ts.tv_sec * 1000000000LL + ts.tv_nsec;
+  if (g_waiting_for_grandchild) g_wd_idle = 0;
+  else if (g_wd_last_cpu_ns >= 0 && now - g_wd_last_cpu_ns < 500000) g_wd_idle++;   // < 0.5 ms of CPU in 2 s
+  else g_wd_idle = 0;
+  g_wd_last_cpu_ns = now;
+  if (g_wd_idle >= 3 || ++g_wd_ticks >= g_wd_cap_ticks) {
+    signal(SIGALRM, SIG_DFL);
+    raise(SIGALRM);
+  }
+}
+static void start_watchdog(int cap_seconds) {
+  g_wd_cap_ticks = cap_seconds / 2;
+  struct sigaction sa;
+  memset(&sa, 0, sizeof sa);
+  sa.sa_handler = watchdog_tick;
+  sa.sa_flags = SA_RESTART;
+  sigaction(SIGALRM, &sa, nullptr);
+  struct itimerval it = {{2, 0}, {2, 0}};
+  setitimer(ITIMER_REAL, &it, nullptr);
+}
+
+// ---------------------------------------------------------------------------
 // Supervisor side
 // ---------------------------------------------------------------------------
 static double now_s() {
@@ -168,8 +204,8 @@ struct Options {
   uint64_t runs = 100;
   int workers = 16;
   double budget_s = 0;       // stop starting new runs after this many seconds (0 = none)
-  double run_timeout_s = 120;
-  int child_alarm_s = 0;   // 0: 15 s for the single-task engines, 60 s for schedsim
+  double run_timeout_s = 300;
+  int child_alarm_s = 0;   // wall-clock cap of the in-child watchdog; 0: 90 s (single-task engines), 240 s (schedsim)
   int cpu_limit_s = 60;
   std::set<std::string> known;
   bool verbose = false;
@@ -210,7 +246,7 @@ static pid_t spawn_child(const Engine *eng, const std::vector<std::string> &plan
     setrlimit(RLIMIT_CORE, &rl);
     // a run that blocks without burning CPU (a mutex that is never released) is ended by a wall-clock alarm
     // in the child itself, long before the supervisor's own timeout: SIGALRM is classified as a hang
-    alarm(g_opt.child_alarm_s > 0 ? g_opt.child_alarm_s : (!strcmp(eng->name, "sched") ? 60 : 15));
+    start_watchdog(g_opt.child_alarm_s > 0 ? g_opt.child_alarm_s : (!strcmp(eng->name, "sched") ? 240 : 90));
     static Child c;
     g_child = &c;
     c.out_fd = p[1];
